@@ -10,6 +10,8 @@
 //!                         fixture number IDX of `fixtures::all()`: SRC is the source text of its template literal
 //!                         (between the quotes), the props are the values its holes / extra pairs evaluate to, `ext`
 //!                         the `#[emit::fmt]` flags given on extra pairs (flags inside the literal are in SRC)
+//!   (scan xSRC)           the real fv_template scanner + syn (the third-party code the macros are built on) run on the
+//!                         literal with source text SRC, through a visitor shaped like emit's `TemplateVisitor`
 
 use emit::template::{self, Formatter, Part};
 use emit::{Props, Template, Value};
@@ -21,6 +23,7 @@ pub fn streams() -> Vec<Stream> {
         Stream { name: "c16_eq", gen: gen_eq, run: run_eq },
         Stream { name: "c16_render", gen: gen_render, run: run_render },
         Stream { name: "c16_macro", gen: gen_macro, run: run_macro },
+        Stream { name: "c16_scan", gen: gen_scan, run: run_scan },
     ]
 }
 
@@ -655,6 +658,87 @@ fn run_macro(line: &str) -> String {
     .unwrap_or_else(|| "bad-case".into())
 }
 
+// ------------------------------------------------------------------ c16_scan
+
+/// Shaped like `emit_macros::template::TemplateVisitor` (which lives in a proc-macro crate and cannot be called):
+/// text → the unescaped fragment, hole → key identifier (+ the flags of an `#[emit::fmt("…")]` attribute).
+struct Collect {
+    out: Result<Vec<String>, ()>,
+}
+
+impl fv_template::LiteralVisitor for Collect {
+    fn visit_text(&mut self, text: &str) {
+        let Ok(out) = &mut self.out else { return };
+        let text = if text.contains('\\') {
+            match syn::parse_str::<syn::LitStr>(&format!("\"{}\"", text)) {
+                Ok(l) => l.value(),
+                Err(_) => {
+                    self.out = Err(());
+                    return;
+                }
+            }
+        } else {
+            text.to_owned()
+        };
+        out.push(format!("T{}", hcommon::hex(text.as_bytes())));
+    }
+
+    fn visit_hole(&mut self, hole: &syn::FieldValue) {
+        use syn::ext::IdentExt;
+        let Ok(out) = &mut self.out else { return };
+        let syn::Member::Named(ident) = &hole.member else {
+            self.out = Err(());
+            return;
+        };
+        let mut item = format!("H{}", hcommon::hex(ident.unraw().to_string().as_bytes()));
+        for attr in &hole.attrs {
+            let path = attr.path().segments.iter().map(|s| s.ident.to_string()).collect::<Vec<_>>().join("::");
+            if path == "emit::fmt" || path == "fmt" {
+                match attr.parse_args::<syn::LitStr>() {
+                    Ok(flags) => item = format!("H{}:{}", hcommon::hex(ident.unraw().to_string().as_bytes()), hcommon::hex(flags.value().as_bytes())),
+                    Err(_) => {
+                        self.out = Err(());
+                        return;
+                    }
+                }
+            }
+        }
+        out.push(item);
+    }
+}
+
+fn run_scan(line: &str) -> String {
+    (|| -> Option<String> {
+        let sx = Sexp::parse(line)?;
+        let (tag, args) = sx.as_tagged()?;
+        if tag != "scan" || args.len() != 1 {
+            return None;
+        }
+        let src = args[0].as_string()?;
+        let lit_src = format!("\"{}\"", src);
+        // SRC must be the body of one string literal token
+        let ts: proc_macro2::TokenStream = lit_src.parse().ok()?;
+        let tts: Vec<proc_macro2::TokenTree> = ts.clone().into_iter().collect();
+        match &tts[..] {
+            [proc_macro2::TokenTree::Literal(l)] if l.to_string() == lit_src => {}
+            _ => return None,
+        }
+        let r = hcommon::catch(|| match fv_template::Template::parse2(ts) {
+            Err(_) => "err".to_string(),
+            Ok(tpl) => {
+                let mut c = Collect { out: Ok(Vec::new()) };
+                tpl.visit_literal(&mut c);
+                match c.out {
+                    Ok(v) if tpl.has_literal() => v.join(","),
+                    _ => "err".to_string(),
+                }
+            }
+        });
+        Some(r.unwrap_or_else(|| "panic\tFAIL:scanner-panicked".to_string()))
+    })()
+    .unwrap_or_else(|| "bad-case".into())
+}
+
 // ------------------------------------------------------------------ generators
 
 /// 1-, 2-, 3- and 4-byte characters; several share their leading UTF-8 bytes (é/è, €/‚, 🎈/📌), braces included.
@@ -913,6 +997,67 @@ fn gen_render(rng: &mut Rng, tier: Tier, n: usize) -> Vec<String> {
         let fail_at = if rng.chance(1, 4) { Some(rng.usize(parts.len() + 2)) } else { None };
         let kind = pick_kind(rng, &parts);
         out.push(render_case(&T { kind, parts }, &props, &pk, fail_at));
+    }
+    out
+}
+
+const SCAN_TEXT: [&str; 30] = [
+    "a", "b", " ", "x", "é", "🎈", "한", "0", ":", "#", "[", "]", "'", "/", "{{", "}}", "{{", "}}", "\\n", "\\t", "\\\\", "\\\"",
+    "\\'", "\\0", "\\r", "\\x41", "\\x7e", "\\x7b", "ab", "\\\\{{",
+];
+const SCAN_HOLES: [&str; 30] = [
+    "x", "y", " x ", "user", "r#type", "_a1", "x: 1 + 1", "x:2", "s: \\\"a}b{\\\"", "c: '}'", "d: '{'", "z: { 1 }",
+    "z: { let q = 2; q * 3 }", "#[emit::fmt(\\\">08\\\")] x", "#[emit::fmt(\\\"\\\")] x", "#[fmt(\\\"?\\\")] y: 2",
+    "#[emit::as_debug] #[emit::fmt(\\\"<5\\\")] y: 2", "#[a(b[0])] k", "#[emit::as_debug] p: Pt { a: 1 }", "x: 4 / 2",
+    "x: m!{ 1 }", "#[emit::fmt(\\\"*^9\\\")] #[b] e", "x: [1, 2][0]", "x: \\\"]\\\"", "é: 1", "x: 'a'", "t: (1, \\\"}\\\")", "x : 1",
+    "#[emit::optional] o: Some(1)", "x: \\\"\\\"",
+];
+/// rejected by the macros; complete in themselves, so they may sit anywhere
+const SCAN_BAD: [&str; 9] = ["}", "{}", "{ }", "{1}", "{x: 1 // c}", "{x: /* c */ 1}", "{x y}", "{-}", "{x}}"];
+/// rejected because the hole never ends: only at the end of a literal (followed by more text they would swallow it as
+/// an expression, and the model does not parse expressions)
+const SCAN_BAD_OPEN: [&str; 5] = ["{", "{x", "{x: {}", "{x: '}", "{#[a x}"];
+
+fn gen_scan(rng: &mut Rng, tier: Tier, n: usize) -> Vec<String> {
+    let mut out: Vec<String> = Vec::new();
+    let case = |src: &str| Sexp::tagged("scan", vec![Sexp::str(src)]).to_string();
+    out.push(case(""));
+    for h in SCAN_HOLES {
+        out.push(case(&format!("{{{}}}", h)));
+    }
+    for b in SCAN_BAD {
+        out.push(case(b));
+        out.push(case(&format!("a{}b", b)));
+    }
+    for b in SCAN_BAD_OPEN {
+        out.push(case(b));
+        out.push(case(&format!("a{{x}}{}", b)));
+    }
+    let max = if tier == Tier::Thorough { 10 } else { 6 };
+    while out.len() < n {
+        let k = 1 + rng.usize(max);
+        let mut src = String::new();
+        for _ in 0..k {
+            match rng.below(10) {
+                0..=5 => src.push_str(*rng.pick(&SCAN_TEXT)),
+                6..=8 => {
+                    src.push('{');
+                    src.push_str(*rng.pick(&SCAN_HOLES));
+                    src.push('}');
+                }
+                _ => {
+                    if rng.chance(1, 3) {
+                        src.push_str(*rng.pick(&SCAN_BAD));
+                    } else {
+                        src.push_str(*rng.pick(&SCAN_TEXT));
+                    }
+                }
+            }
+        }
+        if rng.chance(1, 12) {
+            src.push_str(*rng.pick(&SCAN_BAD_OPEN));
+        }
+        out.push(case(&src));
     }
     out
 }
